@@ -208,8 +208,10 @@ class Runner:
         return r
 
     def split(self, mod, sub, analyses, whole=None):
-        """run `analyses` on the programs `sub` of one module; narrow failures down to single programs
-        (25 -> 5 groups of 5 -> singles).  whole = result already obtained for `sub`."""
+        """run `analyses` on the programs `sub` of one module; narrow failures down to single programs.
+        crash (panic / fatal): 25 -> 5 groups of 5 -> singles, with the hard bound;
+        bound exceeded: straight to singles with the SOFT bound (suspects are confirmed later).
+        whole = result already obtained for `sub`."""
         r = whole or self.run_set(mod, sub, analyses, self.hard)
         failed, notrun = [], []
         for a in analyses:
@@ -230,15 +232,22 @@ class Runner:
             elif notrun:
                 raise Inconclusive("crashrun ran nothing on %s: %s" % (sub[0].dir, r["stderr"][-1500:]))
             return
-        need = [a for a, _, _ in failed] + notrun
-        if not need:
-            return
-        step = 5 if len(sub) > 5 else 1
-        for i in range(0, len(sub), step):
-            self.split(mod, sub[i:i + step], need)
-        for a, o, det in failed:   # a failure of the whole that no part reproduces: attributed to the set
-            if all(p.outs.get(a) in ("result", "error") for p in sub):
-                self.combination_only.append((mod, [p.name for p in sub], a, o, det[:6000]))
+        if notrun and len(notrun) < len(analyses):
+            self.split(mod, sub, notrun)
+        elif notrun:
+            raise Inconclusive("crashrun ran nothing on %s: %s" % (mod, r["stderr"][-1500:]))
+        slow = [a for a, o, _ in failed if o == "timeout"]
+        crash = [a for a, o, _ in failed if o != "timeout"]
+        for a in slow:
+            for p in sub:
+                self.single(p, a)
+        if crash:
+            step = 5 if len(sub) > 5 else 1
+            for i in range(0, len(sub), step):
+                self.split(mod, sub[i:i + step], crash)
+            for a, o, det in failed:   # a crash of the whole that no part reproduces: attributed to the set
+                if a in crash and all(p.outs.get(a) in ("result", "error") for p in sub):
+                    self.combination_only.append((mod, [p.name for p in sub], a, o, det[:6000]))
 
     def module(self, mod, plist):
         r = self.run_set(mod, None, MODULE_ANALYSES, self.hard)
@@ -302,7 +311,7 @@ def run(ctx):
     if nexh < 100:
         raise Inconclusive("CallShapeSpace produced only %d shapes" % nexh)
     # seeded simulation of the big space (edges of any kind, two shapes)
-    sim = shapes_run("sim", 3, 5, 5, 2, ALL, simulate=2000 if thorough else 200)
+    sim = shapes_run("sim", 3, 5, 5, 2, ALL, simulate=1000 if thorough else 60)
     sim = sorted({optlib.shape_key(r): r for r in sim if optlib.shape_key(r) not in shapes}.items())
     rnd.shuffle(sim)
     sim = sim[: (1500 if thorough else 100)]
@@ -545,8 +554,9 @@ def role_a_model(ctx, thorough):
         return {"skipped": "no model"}
     out = {}
     for name, lasso in (("lasso", "TRUE"), ("nolasso", "FALSE")):
-        cfg = ("SPECIFICATION Spec\nCONSTANTS MaxF = %d\n Lasso = %s\n Cap = %d\nPROPERTY Terminates\n"
-               "CHECK_DEADLOCK FALSE\n" % (3 if thorough else 2, lasso, 6))
+        cfg = ("SPECIFICATION Spec\nCONSTANTS MaxF = %d\n MaxE = %d\n Lasso = %s\n Cap = %d\nPROPERTY Terminates\n"
+               "INVARIANT NoOverflow\nINVARIANT StackBound\nCHECK_DEADLOCK FALSE\n" % (
+                   3 if thorough else 2, 5 if thorough else 6, lasso, 8))
         try:
             r = ctx.tlc("VisitorLive", cfg="VL_%s.cfg" % name, data={"VL_%s.cfg" % name: cfg}, subdir="rolea-" + name,
                         timeout=600, deadlock=False)
